@@ -3,10 +3,13 @@ package loader
 import (
 	"fmt"
 	"github.com/f1bonacc1/process-compose/src/command"
+	"github.com/f1bonacc1/process-compose/src/health"
 	"github.com/f1bonacc1/process-compose/src/templater"
 	"github.com/f1bonacc1/process-compose/src/types"
 	"github.com/rs/zerolog/log"
+	"maps"
 	"path/filepath"
+	"slices"
 )
 
 type mutatorFunc func(p *types.Project)
@@ -95,6 +98,9 @@ func cloneReplicas(p *types.Project) {
 			procsToDel = append(procsToDel, name)
 		}
 		for replica := 0; replica < proc.Replicas; replica++ {
+			if proc.Replicas > 1 {
+				copyReplicaConfig(&proc)
+			}
 			proc.ReplicaNum = replica
 			repName := proc.CalculateReplicaName()
 			proc.ReplicaName = repName
@@ -111,6 +117,33 @@ func cloneReplicas(p *types.Project) {
 	for _, proc := range procsToAdd {
 		p.Processes[proc.ReplicaName] = proc
 	}
+}
+
+// copyReplicaConfig gives a replica its own copy of everything that is rendered or changed per replica
+// (the struct copy alone leaves the probes, vars, environment and dependencies shared between replicas)
+func copyReplicaConfig(proc *types.ProcessConfig) {
+	proc.LivenessProbe = copyProbe(proc.LivenessProbe)
+	proc.ReadinessProbe = copyProbe(proc.ReadinessProbe)
+	proc.Vars = maps.Clone(proc.Vars)
+	proc.Environment = slices.Clone(proc.Environment)
+	proc.DependsOn = maps.Clone(proc.DependsOn)
+	proc.Entrypoint = slices.Clone(proc.Entrypoint)
+}
+
+func copyProbe(probe *health.Probe) *health.Probe {
+	if probe == nil {
+		return nil
+	}
+	cp := *probe
+	if probe.Exec != nil {
+		exec := *probe.Exec
+		cp.Exec = &exec
+	}
+	if probe.HttpGet != nil {
+		httpGet := *probe.HttpGet
+		cp.HttpGet = &httpGet
+	}
+	return &cp
 }
 
 func assignExecutableAndArgs(p *types.Project) {
